@@ -70,3 +70,29 @@ def tmut(n=300, seed=3, only=None):
             seen.add(it.mutator)
             print("---- DISAGREE", it.mutator, it.desc, "| impl:", it.res["outcome"], it.res["errors"][:2], it.res["exc"], "model:", it.model_accepts)
     return items
+
+def imp(n=120, seed=31, mut=False):
+    import imports as I, engine, collections
+    ctx = common.Ctx("EXP", "quick", seed); ctx.snapshot()
+    rng = random.Random(seed)
+    items = []
+    for i in range(n):
+        if mut:
+            case, name, desc = I.mutate_i(rng)
+        else:
+            case, name, desc = I.gen_valid_i(rng, threads=(i % 3 == 0)), None, None
+        r = {"spelling": "mixed", "shuffle": i % 2 == 1, "seed": rng.randrange(1 << 30)}
+        doc = I.render_i(case, ctx.repo_copy, random.Random(r["seed"]), r["spelling"], r["shuffle"], False)
+        items.append(engine.Item(case, doc, "mutant" if mut else "valid", mutator=name, owner="C16", desc=desc, render=r, group=str(i)))
+    engine.run_items(ctx, items, coq_file_fn=I.coq_cases_file_i)
+    by = collections.Counter((it.mutator, it.res["outcome"], it.model_accepts) for it in items)
+    for k, v in sorted(by.items(), key=str): print(v, k)
+    seen = set()
+    for it in items:
+        if it.model_accepts is None:
+            print("UNEVALUATED"); break
+        if (it.res["outcome"] == "accept") != it.model_accepts and (it.mutator, it.res["errors"][:1].__str__()[:60]) not in seen:
+            seen.add((it.mutator, it.res["errors"][:1].__str__()[:60]))
+            print("---- DISAGREE", it.mutator, it.desc, "| impl:", it.res["outcome"], it.res["errors"][:3], it.res["exc"], "model:", it.model_accepts)
+    print(ctx.notes[-2:])
+    return items
